@@ -1,10 +1,10 @@
 package btchecks
 
 import (
-	"time"
 	"fmt"
 	"strings"
 	"testing"
+	"time"
 
 	"github.com/fullstorydev/emulators/bigtable/bttest"
 	"pgregory.net/rapid"
